@@ -10,6 +10,8 @@ na = json.load(open(os.path.join(HERE, "not_applicable.json")))
 checks = []
 for pid in sorted(props.PROPS):
     c = props.PROPS[pid]
+    if not os.path.exists(os.path.join(VERIF, "evidence", "%s.json" % pid)):
+        continue     # a check is only registered once it has run clean on the unchanged tree and left evidence
     engines = []
     if c.get("m"):
         engines.append("M: MIR->SMT-LIB symbolic execution of the real functions, decided by cvc5 (z3 cross-check)")
